@@ -24,7 +24,7 @@ def _domain_lines(name, d):
 
 
 def correspondence(ctx):
-    n = 8000 if ctx.thorough else 1500
+    n = 30000 if ctx.thorough else 1500
     for name in A.ALL:
         stream = "reference:" + name
         if not A.has_model(name):
